@@ -74,11 +74,29 @@ WriteCells(S, cs, vs) ==
 AllocL(S, init, kind) ==
     LET start == Len(S.heap) + 1
     IN [S |-> [S EXCEPT !.heap = S.heap \o init,
-                        !.allocs = Append(S.allocs, [start |-> start, len |-> Len(init), kind |-> kind, et |-> ""])],
+                        !.allocs = Append(S.allocs, [start |-> start, len |-> Len(init), kind |-> kind, et |-> "", mask |-> <<>>, soft |-> FALSE, mopen |-> FALSE])],
         start |-> start]
 
 (* element type tag of the latest allocation: "" = the element type of the run, "bool", "int" *)
 SetET(S, et) == [S EXCEPT !.allocs[Len(S.allocs)].et = et]
+
+(* Masks.  A mask lives with the storage: allocs[a].mask is <<>> (unmasked) or one entry per storage
+   position: 0 / 1, or a truth-valued term.  A tensor is masked iff its allocation is; the mask of
+   element k is the entry of cell cells[k], so a mask travels with its elements through slicing and
+   transposition by construction. *)
+AllocOf(S, c) == CHOOSE a \in 1..Len(S.allocs) : c >= S.allocs[a].start /\ c < S.allocs[a].start + S.allocs[a].len
+IsMaskedT(S, t) == S.allocs[t.al].mask # <<>>
+MT == <<"t">>      \* mask entries are truth-valued terms: the constants "t" / "f", or comparison terms
+MF == <<"f">>
+MaskBit(S, c) == LET a == S.allocs[AllocOf(S, c)] IN IF a.mask = <<>> THEN MF ELSE a.mask[c - a.start + 1]
+MaskOf(S, t) == [k \in 1..Len(t.cells) |-> MaskBit(S, t.cells[k])]
+(* write mask entries ms[k] at cells cs[k] (all in allocation a, which must be masked) *)
+WriteMask(S, a, cs, ms) ==
+    [S EXCEPT !.allocs[a].mask = [i \in 1..S.allocs[a].len |->
+        LET c == S.allocs[a].start + i - 1
+        IN IF \E k \in 1..Len(cs) : cs[k] = c THEN ms[CHOOSE k \in 1..Len(cs) : cs[k] = c] ELSE S.allocs[a].mask[i]]]
+SetMaskAll(S, a, bits) == [S EXCEPT !.allocs[a].mask = bits]
+Or01(x, y) == IF x = MT \/ y = MT THEN MT ELSE IF x = MF THEN y ELSE IF y = MF THEN x ELSE <<"or", x, y>>
 
 ValuesOf(S, cs) == [k \in 1..Len(cs) |-> S.heap[cs[k]]]
 
@@ -154,7 +172,8 @@ PhysT(S, h) ==
     IN IF t.pend = NoPend \/ t.shape = <<>> THEN S
        ELSE LET pos   == SortedSeq(Range(t.cells))
                 ncell == FromFlat(t.shape, pos, t.ord)
-                S1    == WriteCells(S, ncell, ValuesOf(S, t.cells))
+                S0    == WriteCells(S, ncell, ValuesOf(S, t.cells))
+                S1    == IF IsMaskedT(S, t) THEN WriteMask(S0, t.al, ncell, MaskOf(S, t)) ELSE S0
             IN SetLive(S1, h, [t EXCEPT !.cells = ncell, !.pend = NoPend])
 
 Contiguous(cs) == LET R == Range(cs) IN SetMax(R) - SetMin(R) + 1 = Cardinality(R)
@@ -205,7 +224,8 @@ TransposeT(S, h) == Tagged(OkH(PhysT(S, h), 0), PhysTags(S, h))
 FreshCopy(S, t) ==
     LET a  == AllocL(S, ValuesOf(S, t.cells), "l")
         f  == [k \in 1..Len(t.cells) |-> a.start + k - 1]
-    IN [S |-> a.S, cells |-> f, al |-> Len(S.allocs) + 1]
+        S1 == IF IsMaskedT(S, t) THEN SetMaskAll(a.S, Len(S.allocs) + 1, MaskOf(S, t)) ELSE a.S
+    IN [S |-> S1, cells |-> f, al |-> Len(S.allocs) + 1]
 
 SafeTT(S, h, p0) ==
     LET t == S.live[h]
@@ -334,6 +354,16 @@ FreshResult(S, shape, ord, vals, et) ==
               pend |-> NoPend, ord |-> ord, al |-> Len(S.allocs) + 1, wide |-> FALSE]
     IN OkH(AddLive(SetET(a.S, et), t), NewH(S))
 
+(* the result of an operation on masked operands is masked where any operand is *)
+WithResultMask(o, ms) ==
+    IF ms = <<>> \/ o.res.st # "ok" \/ o.res.h = 0 THEN o
+    ELSE (* whether the result carries a mask is not demanded: `mopen` leaves the mask itself unobserved and
+            only excludes the positions masked in an operand from the value comparison *)
+         Out([SetMaskAll(o.S, o.S.live[o.res.h].al, ms) EXCEPT !.allocs[o.S.live[o.res.h].al].mopen = TRUE], o.res)
+OperandMask(S, t, u) ==
+    IF ~IsMaskedT(S, t) /\ ~IsMaskedT(S, u) THEN <<>>
+    ELSE [k \in 1..Len(t.cells) |-> Or01(MaskBit(S, t.cells[k]), MaskBit(S, u.cells[k]))]
+
 Deliver(S, shape, ord, vals, mode, d, u, et, mayRefuse) ==
     CASE mode = "safe"   -> LET o == FreshResult(S, shape, ord, vals, et)
                             IN Out(o.S, [o.res EXCEPT !.ref = mayRefuse])
@@ -364,9 +394,10 @@ BinVals(S, h, f, form, b, head) ==
 ArithT(S, h, f, form, b, mode, d) ==
     LET t == S.live[h]
     IN IF form = "TT" /\ S.live[b].shape # t.shape THEN Err(S)
-       ELSE Deliver(S, t.shape, t.ord, BinVals(S, h, f, form, b, "bin"), mode, d, h, "",
-                    (* an aliasing reuse may be refused *)
-                    mode = "reuse" /\ (d = h \/ (form = "TT" /\ d = b)))
+       ELSE LET o == Deliver(S, t.shape, t.ord, BinVals(S, h, f, form, b, "bin"), mode, d, h, "",
+                             (* an aliasing reuse may be refused *)
+                             mode = "reuse" /\ (d = h \/ (form = "TT" /\ d = b)))
+            IN IF mode = "safe" THEN WithResultMask(o, OperandMask(S, t, IF form = "TT" THEN S.live[b] ELSE t)) ELSE o
 
 (* comparisons: result kind "bool" (default), "same" (1/0 of the operand type); unsafe is in place and
    therefore of the operand type *)
@@ -386,6 +417,77 @@ UnaryT(S, h, f, mode, d, lo, hi) ==
                    IF f = "clamp" THEN <<"clamp", S.heap[t.cells[k]], K(lo), K(hi)>>
                    ELSE <<"un", f, S.heap[t.cells[k]]>>]
     IN Deliver(S, t.shape, t.ord, vals, mode, d, h, "", mode = "reuse" /\ d = h)
+
+(***************************************************************************)
+(* Masked tensors                                                          *)
+(***************************************************************************)
+NewMaskedT(S, shape, bits) ==
+    LET o == NewT(S, shape, "C", "")
+    IN Out(SetMaskAll(o.S, Len(o.S.allocs), [i \in 1..Len(bits) |-> IF bits[i] = 1 THEN MT ELSE MF]), o.res)
+
+(* predicates: "eq","ne","gt","ge","lt","le" against K(x); "inside" (x <= a <= y), "outside" against K(x), K(y) *)
+PredTerm(pred, v, x, y) ==
+    CASE pred = "eq" -> <<"cmp", "eq", v, K(x)>>
+      [] pred = "ne" -> <<"cmp", "ne", v, K(x)>>
+      [] pred = "gt" -> <<"cmp", "gt", v, K(x)>>
+      [] pred = "ge" -> <<"cmp", "gte", v, K(x)>>
+      [] pred = "lt" -> <<"cmp", "lt", v, K(x)>>
+      [] pred = "le" -> <<"cmp", "lte", v, K(x)>>
+      [] pred = "inside"  -> <<"and", <<"cmp", "gte", v, K(x)>>, <<"cmp", "lte", v, K(y)>>>>
+      [] pred = "outside" -> <<"or", <<"cmp", "lt", v, K(x)>>, <<"cmp", "gt", v, K(y)>>>>
+
+(* a soft mask is replaced by the predicate, a hard mask only grows *)
+MaskPredT(S, h, pred, x, y) ==
+    LET t  == S.live[h]
+        a  == t.al
+        S0 == IF IsMaskedT(S, t) THEN S ELSE SetMaskAll(S, a, [i \in 1..S.allocs[a].len |-> MF])
+        soft == S.allocs[a].soft
+        nm == [k \in 1..Len(t.cells) |->
+                 LET p == PredTerm(pred, S.heap[t.cells[k]], x, y)
+                 IN IF soft THEN p ELSE Or01(MaskBit(S0, t.cells[k]), p)]
+    IN OkH(WriteMask(S0, a, t.cells, nm), 0)
+
+SoftenT(S, h, soft) == OkH([S EXCEPT !.allocs[S.live[h].al].soft = soft], 0)
+ResetMaskT(S, h) ==
+    LET t == S.live[h] a == t.al
+        S0 == IF IsMaskedT(S, t) THEN S ELSE SetMaskAll(S, a, [i \in 1..S.allocs[a].len |-> MF])
+    IN OkH(WriteMask(S0, a, t.cells, [k \in 1..Len(t.cells) |-> MF]), 0)
+
+(* Filled: a fresh tensor equal to the receiver with every masked element replaced by v *)
+FilledT(S, h, v) ==
+    LET t == S.live[h]
+        m == MaskOf(S, t)
+        vals == [k \in 1..Len(t.cells) |-> IF m[k] = MT THEN v ELSE S.heap[t.cells[k]]]
+        o == FreshResult(S, t.shape, t.ord, vals, "")
+    IN Out(IF IsMaskedT(S, t) THEN SetMaskAll(o.S, Len(o.S.allocs), m) ELSE o.S, o.res)
+
+(* inspection of a mask of 0/1 bits in logical row-major order *)
+CountOnes(m) == Cardinality({k \in 1..Len(m) : m[k] = 1})
+Bits(ms) == [k \in 1..Len(ms) |-> IF ms[k] = MT THEN 1 ELSE 0]
+RECURSIVE RunsFrom(_, _, _)
+(* maximal runs [start, end) of value v in m, scanning from position i (0-based) *)
+RunsFrom(m, v, i) ==
+    IF i >= Len(m) THEN <<>>
+    ELSE IF m[i + 1] # v THEN RunsFrom(m, v, i + 1)
+    ELSE LET e == CHOOSE j \in (i + 1)..Len(m) : (\A q \in (i + 1)..j : m[q] = v) /\ (j = Len(m) \/ m[j + 1] # v)
+         IN <<<<i, e>>>> \o RunsFrom(m, v, e)
+Edges(m, v) == LET P == {k \in 1..Len(m) : m[k] = v}
+               IN IF P = {} THEN <<-1, -1>> ELSE <<SetMin(P) - 1, SetMax(P) - 1>>
+
+MaskInspectT(S, h) ==
+    LET t == S.live[h]
+        m == Bits(MaskOf(S, t))
+        r == Len(t.shape)
+        perAxis(ax) == LET osh == ReducedShape(t.shape, {ax})
+                       IN [k \in 1..Prod(osh) |-> CountOnes(Fibre(t.shape, m, {ax}, k - 1))]
+    IN Out(S, Res("ok", FALSE, 0, <<>>,
+           [masked |-> IF IsMaskedT(S, t) THEN 1 ELSE 0,
+            count |-> CountOnes(m), size |-> Len(m),
+            axcount |-> [ax \in 1..r |-> perAxis(ax)],
+            axlen |-> [ax \in 1..r |-> t.shape[ax]],
+            mruns |-> RunsFrom(m, 1, 0), uruns |-> RunsFrom(m, 0, 0),
+            medges |-> Edges(m, 1), uedges |-> Edges(m, 0),
+            mask |-> m]))
 
 (***************************************************************************)
 (* Reductions.  axes: a sequence of distinct 0-based axes in any order.    *)
@@ -591,6 +693,12 @@ Apply(S, op) ==
       [] op.k = "Arith"       -> ArithT(S, op.h, op.a[1], op.a[2], op.a[3], op.a[4], op.a[5])
       [] op.k = "Cmp"         -> CmpT(S, op.h, op.a[1], op.a[2], op.a[3], op.a[4], op.a[5], op.a[6] = 1)
       [] op.k = "Unary"       -> UnaryT(S, op.h, op.a[1], op.a[2], op.a[3], op.a[4], op.a[5])
+      [] op.k = "NewMasked"   -> NewMaskedT(S, op.a[1], op.a[2])
+      [] op.k = "MaskPred"    -> MaskPredT(S, op.h, op.a[1], op.a[2], op.a[3])
+      [] op.k = "Soften"      -> SoftenT(S, op.h, op.a[1] = 1)
+      [] op.k = "ResetMask"   -> ResetMaskT(S, op.h)
+      [] op.k = "Filled"      -> FilledT(S, op.h, IF op.a[1] = 0 THEN <<"fill">> ELSE K(op.a[1]))
+      [] op.k = "MaskInspect" -> MaskInspectT(S, op.h)
       [] op.k = "Reduce"      -> ReduceT(S, op.h, op.a[1], op.a[2])
       [] op.k = "Arg"         -> ArgT(S, op.h, op.a[1], op.a[2])
       [] op.k = "Product"     -> ProductT(S, op.a[1], op.h, op.a[2], op.a[3], op.a[4], op.a[5], op.a[6])
